@@ -146,6 +146,16 @@ def errors_consulted(ctx):
             ctx.cache["miss_checked"] = missexec.check(ctx)
         problems = ctx.cache["miss_checked"]
     except AnalysisError as e:
+        # the handler's own model (what the resolution leaves where) does not fit this version: decide on the handler
+        # and the resolution interpreted together, which assumes nothing about where things are filed
+        from . import lookupexec
+
+        n0 = len(ctx.obs)
+        try:
+            lookupexec.law(ctx, "reference", "repeat-is-first")
+            return
+        except AnalysisError:
+            del ctx.obs[n0:]
         run_fallback(ctx, _errors_consulted_shape, e, "cache-miss handler")
         return
     for law, (key, text, why) in MISS_LAWS.items():
